@@ -238,14 +238,14 @@ class Build(object):
         self.effects(chart, e, f)
 
 
-def build_closure(spec, rec, spied=True, effects=None, malform=None):
+def build_closure(spec, rec, spied=True, effects=None, malform=None, unspied=()):
   """hand-written style.  malform: optional {'state':..,'signal':..} -> that handler returns
   None for that signal (C24)"""
   ev = seams.mods['event']
   hsm = seams.mods['hsm']
   signals, rs = ev.signals, ev.return_status
   b = Build(spec, rec, effects)
-  b.kind = 'closure-spied' if spied else 'closure'
+  b.kind = ('closure-mixed' if unspied else 'closure-spied') if spied else 'closure'   # mixed: some states lack the decorator
   sp = b.spec
 
   def make(st):
@@ -316,7 +316,7 @@ def build_closure(spec, rec, spied=True, effects=None, malform=None):
   for st in sp.d['states']:
     raw = make(st)
     b.raw[st['name']] = raw
-    b.h[st['name']] = hsm.spy_on(raw) if spied else raw
+    b.h[st['name']] = hsm.spy_on(raw) if spied and st['name'] not in unspied else raw
   return b
 
 
